@@ -68,16 +68,34 @@ fn run_case(v: &Value) -> String {
     out
 }
 
+// Wall-clock watchdog: these runners have no step budget (no hooks), so a runaway case would block the harness
+// for ever. After 5 s on one case the runner reports TIMEOUT and exits; the harness treats that case as
+// inconclusive (skipped and counted) and starts a fresh runner. A timeout is never a verdict.
+static CASE_STARTED_MS: std::sync::atomic::AtomicU64 = std::sync::atomic::AtomicU64::new(0);
+
+fn now_ms() -> u64 {
+    std::time::SystemTime::now().duration_since(std::time::UNIX_EPOCH).map(|d| d.as_millis() as u64).unwrap_or(0)
+}
+
 fn main() {
     std::panic::set_hook(Box::new(|_| {}));
+    std::thread::spawn(|| loop {
+        std::thread::sleep(std::time::Duration::from_millis(100));
+        let t = CASE_STARTED_MS.load(std::sync::atomic::Ordering::SeqCst);
+        if t != 0 && now_ms().saturating_sub(t) > 5_000 {
+            println!("TIMEOUT");
+            let _ = std::io::stdout().flush();
+            std::process::exit(3);
+        }
+    });
     let stdin = std::io::stdin();
     let stdout = std::io::stdout();
-    let mut out = stdout.lock();
     for line in stdin.lock().lines() {
         let line = match line {
             Ok(l) => l,
             Err(_) => break,
         };
+        CASE_STARTED_MS.store(now_ms(), std::sync::atomic::Ordering::SeqCst);
         let res = match serde_json::from_str::<Value>(&line) {
             Ok(v) => match catch_unwind(AssertUnwindSafe(|| run_case(&v))) {
                 Ok(s) => s,
@@ -85,6 +103,9 @@ fn main() {
             },
             Err(_) => "BADJSON".to_string(),
         };
+        CASE_STARTED_MS.store(0, std::sync::atomic::Ordering::SeqCst);
+        // (the lock is taken per line so that the watchdog thread can still print)
+        let mut out = stdout.lock();
         let _ = writeln!(out, "{}", res.replace('\n', "\\n"));
         let _ = out.flush();
     }
